@@ -11,6 +11,7 @@
 
 #include "libphysica/Numerics.hpp"
 #include <memory>
+#include <utility>
 
 using namespace libphysica;
 
@@ -29,25 +30,29 @@ static Op read_op(Args& a, bool twod)
 	o.t = a.tok();
 	if(twod)
 	{
-		if(o.t == "I")
+		if(o.t == "I" || o.t == "Io")
 		{
 			o.a = a.dbl();
 			o.b = a.dbl();
 		}
 		else if(o.t == "P" || o.t == "X")
 			o.a = a.dbl();
+		else if(o.t == "Sv")
+			o.k = a.u64();
 		else if(o.t == "Z")
 		{
 			o.k = a.u64();
 			o.a = a.dbl();
 			o.b = a.dbl();
 		}
-		else if(o.t != "gm" && o.t != "gM" && o.t != "C")
+		else if(o.t != "gm" && o.t != "gM" && o.t != "C" && o.t != "Cs" && o.t != "Cm")
 			throw BadArgs("op2 " + o.t);
 		return o;
 	}
-	if(o.t == "I" || o.t == "L" || o.t == "P" || o.t == "X")
+	if(o.t == "I" || o.t == "Io" || o.t == "L" || o.t == "P" || o.t == "X")
 		o.a = a.dbl();
+	else if(o.t == "Sv")
+		o.k = a.u64();
 	else if(o.t == "D")
 	{
 		o.a = a.dbl();
@@ -58,7 +63,7 @@ static Op read_op(Args& a, bool twod)
 		o.a = a.dbl();
 		o.b = a.dbl();
 	}
-	else if(o.t != "gm" && o.t != "gM" && o.t != "C")
+	else if(o.t != "gm" && o.t != "gM" && o.t != "C" && o.t != "Cs" && o.t != "Cm")
 		throw BadArgs("op " + o.t);
 	return o;
 }
@@ -72,12 +77,14 @@ static std::vector<Op> read_ops(Args& a, bool twod)
 	return v;
 }
 
-static bool is_value(const Op& o) { return o.t == "I" || o.t == "D" || o.t == "G" || o.t == "m" || o.t == "M" || o.t == "gm" || o.t == "gM"; }
+static bool is_value(const Op& o) { return o.t == "Io" || o.t == "I" || o.t == "D" || o.t == "G" || o.t == "m" || o.t == "M" || o.t == "gm" || o.t == "gM"; }
 
 static double query(Interpolation& f, const Op& o)
 {
 	if(o.t == "I")
 		return f.Interpolate(o.a);
+	if(o.t == "Io")
+		return f(o.a);	 // operator()
 	if(o.t == "D")
 		return f.Derivative(o.a, o.k);
 	if(o.t == "G")
@@ -97,6 +104,8 @@ static double query2(Interpolation_2D& f, const Op& o)
 {
 	if(o.t == "I")
 		return f.Interpolate(o.a, o.b);
+	if(o.t == "Io")
+		return f(o.a, o.b);	  // operator()
 	if(o.t == "gm")
 		return f.Global_Minimum();
 	if(o.t == "gM")
@@ -156,6 +165,23 @@ std::string handle(const std::string& op, Args& a)
 					obj = tmp;
 					o << "U";
 				}
+				else if(c.t == "Cs")
+				{
+					Interpolation& self = obj;	 // self-assignment
+					obj					= self;
+					o << "U";
+				}
+				else if(c.t == "Cm")
+				{
+					Interpolation tmp(std::move(obj));	 // move construction + move assignment back
+					obj = std::move(tmp);
+					o << "U";
+				}
+				else if(c.t == "Sv")
+				{
+					obj.Save_Function("/dev/null", c.k);   // evaluates the curve at c.k points of the domain
+					o << "U";
+				}
 				else if(c.t == "L")
 				{
 					Interpolation f = fresh(p, p_set, false);
@@ -171,7 +197,7 @@ std::string handle(const std::string& op, Args& a)
 					o << "V" << vu << vf;
 					// "changes all outputs by exactly the factor": the same query (extrema swapped for a negative factor)
 					// on an object whose prefactor was never touched
-					if(p_set && (c.t == "I" || c.t == "D" || c.t == "m" || c.t == "M" || c.t == "gm" || c.t == "gM"))
+					if(p_set && (c.t == "I" || c.t == "Io" || c.t == "D" || c.t == "G" || c.t == "m" || c.t == "M" || c.t == "gm" || c.t == "gM"))
 					{
 						Interpolation u = fresh(1.0, false, false);
 						Op cu			= c;
@@ -269,6 +295,23 @@ std::string handle(const std::string& op, Args& a)
 						saved.push_back(Saved {Interpolation_2D(*objp), p, p_set});
 					Interpolation_2D tmp(*objp);
 					*objp = tmp;
+					o << "U";
+				}
+				else if(c.t == "Cs")
+				{
+					Interpolation_2D& self = *objp;
+					*objp				   = self;
+					o << "U";
+				}
+				else if(c.t == "Cm")
+				{
+					Interpolation_2D tmp(std::move(*objp));
+					*objp = std::move(tmp);
+					o << "U";
+				}
+				else if(c.t == "Sv")
+				{
+					objp->Save_Function("/dev/null", c.k, c.k);
 					o << "U";
 				}
 				else if(c.t == "Z")
@@ -442,6 +485,23 @@ std::string handle(const std::string& op, Args& a)
 					}
 					else if(q.t == "C")
 						o << "U";
+					else if(q.t == "Cs")
+					{
+						Interpolation& self = f;
+						f					= self;
+						o << "U";
+					}
+					else if(q.t == "Cm")
+					{
+						Interpolation tmp(std::move(f));
+						f = std::move(tmp);
+						o << "U";
+					}
+					else if(q.t == "Sv")
+					{
+						f.Save_Function("/dev/null", q.k);
+						o << "U";
+					}
 					else
 					{
 						Interpolation g(tb[in.table].first, tb[in.table].second);
